@@ -376,6 +376,9 @@ class WebSocket:
         # the key comes from this connection's source, whatever an earlier
         # send of the same frame object on another connection left behind
         frame.get_mask_key = self.get_mask_key if self.get_mask_key else os.urandom
+        # a client masks every frame it writes (a received frame that is
+        # relayed carries the server's MASK flag, 0)
+        frame.mask_value = 1
         data = frame.format()
         length = len(data)
         if isEnabledForTrace():
